@@ -121,7 +121,7 @@ def assign_case(draw, tier="quick"):
     m = len(idxs) if idxs is not None else draw(st.integers(0, 3))
     # value
     cls = draw(st.sampled_from(["same", "same", "narrower", "wider", "wider", "incompatible", "none", "mixed_wider",
-                                "none_then_wider", "wider_then_none"]))
+                                "none_then_wider", "wider_then_none", "twin"]))
     vkind = kind
 
     def elems(k_):
@@ -159,6 +159,13 @@ def assign_case(draw, tier="quick"):
         wv = draw(elems(draw(st.sampled_from(LADDER_UP[kind]))))
         a_, b_ = sorted(draw(st.lists(st.integers(0, len(seq) - 1), min_size=2, max_size=2, unique=True)))
         seq[a_], seq[b_] = (None, wv) if cls == "none_then_wider" else (wv, None)
+    if cls == "twin" and kind in ("bool", "int", "float") and len(seq) >= 2:
+        # two values that are equal (and hash alike) but of different rungs: 1 and 1.0, True and 1, 2.0 and 2+0j
+        a_, b_ = sorted(draw(st.lists(st.integers(0, len(seq) - 1), min_size=2, max_size=2, unique=True)))
+        x = seq[a_]
+        up = {"bool": [int, float], "int": [float, complex], "float": [complex]}[kind]
+        tw = draw(st.sampled_from(up))(x)
+        seq[a_], seq[b_] = (x, tw) if draw(st.booleans()) else (tw, x)
     if cls == "mixed_wider" and kind in ("int", "bool", "float") and len(seq) >= 2:
         ups = LADDER_UP[kind]
         seq[0] = draw(elems(ups[0]))
